@@ -24,7 +24,8 @@ from pathlib import Path
 VERIF_DIR = Path(__file__).resolve().parent.parent
 REPO_SRC = os.environ.get("VERIF_REPO_SRC", "/repo/src")
 KNOWN_FINDINGS_FILE = VERIF_DIR / "known_findings.json"
-EVIDENCE_DIR = VERIF_DIR / "evidence"
+# development runs against patched copies (tools/mutants.sh) must not overwrite the evidence of the real tree
+EVIDENCE_DIR = Path(os.environ.get("VERIF_EVIDENCE_DIR") or VERIF_DIR / "evidence")
 REPLAY_DIR = VERIF_DIR / "replays"
 
 EXIT_OK, EXIT_VIOLATION, EXIT_HARNESS = 0, 1, 2
